@@ -39,7 +39,7 @@ func (s Spec) minLen() int {
 		return imax(8, s.P+1)
 	case "runsDist":
 		return 100
-	case "longest":
+	case "longest", "longestBytes":
 		return 128
 	case "binder":
 		return imax(7, s.P+1)
@@ -64,7 +64,9 @@ func imax(a, b int) int {
 	return b
 }
 
-func (s Spec) needsBytes() bool { return s.T == "monoBytes" || s.T == "pokerBytes" }
+func (s Spec) needsBytes() bool {
+	return s.T == "monoBytes" || s.T == "pokerBytes" || s.T == "longestBytes"
+}
 
 // libCall runs the code under test. Returns [P,Q] or [P1,P2,Q1,Q2].
 func libCall(s Spec, bools []bool, bytes []byte) []float64 {
@@ -93,6 +95,8 @@ func libCall(s Spec, bools []bool, bytes []byte) []float64 {
 		return pq(R.RunsDistributionTest(bools))
 	case "longest":
 		return pq(R.LongestRunOfOnesInABlockProto(bools, s.P == 1))
+	case "longestBytes":
+		return pq(R.LongestRunOfOnesInABlockTestBytes(bytes, s.P == 1))
 	case "binder":
 		return pq(R.BinaryDerivativeProto(bools, s.P))
 	case "autocorr":
@@ -132,7 +136,7 @@ func refCall(s Spec, e oracle.Bits) []float64 {
 		return pq(oracle.Runs(e))
 	case "runsDist":
 		return pq(oracle.RunsDistribution(e))
-	case "longest":
+	case "longest", "longestBytes":
 		return pq(oracle.LongestRun(e, s.P == 1))
 	case "binder":
 		return pq(oracle.BinaryDerivative(e, s.P))
@@ -309,7 +313,7 @@ func init() {
 // degenerateFam says whether a family is a designated degenerate one.
 func degenerateFam(f string) bool {
 	switch f {
-	case "zeros", "ones", "alt", "singlerun", "sparse", "periodic", "byteperiodic", "walk", "transition", "lfsr":
+	case "zeros", "ones", "alt", "singlerun", "sparse", "periodic", "byteperiodic", "walk", "transition", "lfsr", "longruns":
 		return true
 	}
 	return false
